@@ -198,7 +198,8 @@ M = [
      "        for c in reversed(self.children):\n            try:\n                return c.process(pos, data, ctx)\n            except:\n                pass\n        raise Exception()"),
     ("c19_not_followed_by_returns_follower_position", PARSR, "        try:\n            right.process(new, data, ctx)\n        except Exception:\n            return new, res", "        try:\n            right.process(new, data, ctx)\n        except Exception:\n            return new + 1 if data[new] is not None else new, res"),
     ("c19_taglang_and_binds_looser", "insights/core/taglang.py", "term = (factor + Many(Char(\"&\") + factor)).map(oper)\nexpr <= (term + Many(InSet(\",|\") + term)).map(oper)", "term = (factor + Many(InSet(\",|\") + factor)).map(oper)\nexpr <= (term + Many(Char(\"&\") + term)).map(oper)"),
-    ("c19_f12_reverted", PARSR, "        results = [first] if first is not Parser._NOTHING else []", "        results = [first] if first and first is not Parser._NOTHING else []"),
+    ("c19_f12_reverted", PARSR, "        return [first] + rest", "        return ([first] if first else []) + rest"),
+    ("c19_f19_reverted", PARSR, "        return Lift(self._accumulate) * Opt(Sequence([self, Many(sep >> self)]))", "        return Lift(lambda first, rest: ([] if first is Parser else [first]) + rest) * Opt(self, Parser) * Many(sep >> self)"),
     ("c19_literal_ignore_case_is_case_sensitive", PARSR, "                if data[pos].lower() == c:", "                if data[pos] == c:"),
     ("c19_keep_left_does_not_consume_right", PARSR, "        pos, res = left.process(pos, data, ctx)\n        pos, _ = right.process(pos, data, ctx)\n        return pos, res", "        pos, res = left.process(pos, data, ctx)\n        right.process(pos, data, ctx)\n        return pos, res"),
     ("c19_many_lower_bound_off_by_one", PARSR, "        if len(results) < self.lower:\n            child = self.children[0]", "        if len(results) < self.lower - 1:\n            child = self.children[0]"),
